@@ -88,3 +88,19 @@ Definition law_cli_invocation (i : inv) (ok : bool) (gets posts : nat) (new : li
 (* end to end: the controllers execute exactly the Commands left behind, each once *)
 Definition law_e2e (news : list (list command)) (reqs : list (Z * Z * Z * Z)) : bool :=
   bool_decide (reqs = flat_map (map ctl_req) news).
+
+(* ---------- foreign / malformed target references ---------- *)
+(* observed per Command: Delete calls naming it, still present at the end; requests of the
+   job and of the queue controller.  A Command that is not a reference to a Job (resp.
+   Queue) of the controller's own group/version is neither deleted nor executed and is still
+   there; every request belongs to an accepted Command and names its target *)
+Definition law_filter (l : list dcmd) (obs : list (nat * bool)) (jobreqs queuereqs : list request) : bool :=
+  bool_decide (length obs = length l) &&
+  forallb (fun dx : dcmd * (nat * bool) =>
+             let '(d, (n, p)) := dx in
+             (accepts 1 d || accepts 2 d || (bool_decide (n = 0%nat) && p)) &&
+             implb (negb (bool_decide (n = 0%nat))) (accepts 1 d || accepts 2 d) &&
+             bool_decide (n <= 1)%nat)
+          (combine l obs) &&
+  bool_decide (jobreqs = map (dreq 1) (filter (accepts 1) l)) &&
+  bool_decide (queuereqs = map (dreq 2) (filter (accepts 2) l)).
